@@ -4,7 +4,12 @@
 
    A pipeline is a chain: a source (range_stream, single(just v), never_stream, or a scripted
    harness source k2s::src) under unary adaptors (transform_stream, filter_stream, take_until with a
-   scripted trigger stream, stop_immediately, type_erase), consumed by reduce_stream or for_each.
+   scripted trigger stream, stop_immediately, type_erase, and the adapt_stream family: next_adapt_stream /
+   cleanup_adapt_stream / adapt_stream over the table [sadapt] of sender adaptors, with via_stream /
+   typed_via_stream / on_stream / delay DEFINED as the compositions their headers write), consumed by
+   reduce_stream or for_each.  The schedulers of via / on / delay are harness schedulers k2s::hsched{sid}:
+   inline, stop-insensitive contexts whose schedule() / schedule_after(d) is observable as the event
+   [THop sid d]; a queued (script-driven) or stop-sensitive scheduler is NOT modelled.
    The state of a chain is a chain of nodes of the same shape.  Every node offers five entry points
    (record [ops]; each adaptor implements them on the node body, record [rops], and [wrap] adds the
    ghost bookkeeping) mirroring what can happen to the real objects:
@@ -65,6 +70,18 @@ Definition rfn_apply (f : rfn) (acc x : Z) : Z + Z :=
 (* the consumer: reduce_stream(s, init, f)  or  for_each(s, g) = then(reduce_stream(s, unit, g'), ignore) *)
 Inductive cons := CReduce (init : Z) (f : rfn) | CForEach (g : fn).
 
+(* the table of SENDER adaptors the adapt_stream family is instantiated with (generic lambdas applied to
+   next(inner) / cleanup(inner)).  [sid] names a harness scheduler k2s::hsched{sid}: its schedule() /
+   schedule_after(d) operation logs `hop sid d` and completes inline with a value whatever the stop token
+   says (an inline, stop-insensitive context; see harness/k2s.hpp), so the machine stays deterministic.
+     AId            [](auto&& s) { return (decltype(s))s; }
+     AThen f        [](auto&& s) { return then((decltype(s))s, f); }   (next only: cleanup carries no value)
+     AVia sid       [](auto&& s) { return via((decltype(s))s, sched); }          via.hpp = finally(s, schedule(sched))
+     ATypedVia sid  the same through the deprecated alias typed_via (typed_via.hpp: the same _via::_fn object)
+     AOn sid        [](auto&& s) { return on(sched, (decltype(s))s); }           on.hpp = sequence(schedule(sched), s)
+     ADelay sid d   [](auto&& s) { return finally((decltype(s))s, schedule_after(sched, d)); }   delay.hpp *)
+Inductive sadapt := AId | AThen (f : fn) | AVia (sid : nat) | ATypedVia (sid : nat) | AOn (sid : nat) | ADelay (sid d : nat).
+
 Inductive stexpr :=
 | SRange (a b : Z)                         (* range_stream{a, b} *)
 | SSingle (v : Z)                          (* single(just(v)) *)
@@ -74,7 +91,17 @@ Inductive stexpr :=
 | SFilter (p : pred) (s : stexpr)
 | STakeUntil (s : stexpr) (tid : nat) (treactive : bool)   (* take_until(s, scripted source tid) *)
 | SStopImm (s : stexpr)                    (* stop_immediately<int>(s) *)
-| STypeErase (s : stexpr).                 (* type_erase<int>(s) *)
+| STypeErase (s : stexpr)                  (* type_erase<int>(s) *)
+| SNextAdapt (a : sadapt) (s : stexpr)     (* next_adapt_stream(s, a): next_adapt_stream.hpp:36-44 cleanup passes through *)
+| SCleanupAdapt (a : sadapt) (s : stexpr)  (* cleanup_adapt_stream(s, a): cleanup_adapt_stream.hpp next passes through *)
+| SAdapt1 (a : sadapt) (s : stexpr)        (* adapt_stream(s, a): adapt_stream.hpp:68-83, one adaptor for both *)
+| SAdapt2 (an ac : sadapt) (s : stexpr).   (* adapt_stream(s, an, ac): adapt_stream.hpp:44-59 *)
+
+(* via_stream.hpp:32-52, typed_via_stream.hpp (the same function object), on_stream.hpp:32-52, delay.hpp:31-43 *)
+Definition via_stream (sid : nat) (s : stexpr) : stexpr := SAdapt1 (AVia sid) s.
+Definition typed_via_stream (sid : nat) (s : stexpr) : stexpr := SAdapt1 (ATypedVia sid) s.
+Definition on_stream (sid : nat) (s : stexpr) : stexpr := SAdapt1 (AOn sid) s.
+Definition delay (sid d : nat) (s : stexpr) : stexpr := SAdapt1 (ADelay sid d) s.
 
 (* which repairs are applied *)
 Record variant := { v_tu_fixed : bool;     (* finding 2: take_until trigger_receiver::set_done destroys triggerOp_ *)
@@ -92,6 +119,7 @@ Inductive tev :=
 | TOpDel (id : nat)                            (* the tracked cleanup operation state of source id was destroyed *)
 | TCall (f : fn) (x : Z)                       (* transform function *)
 | TPred (p : pred) (x : Z)                     (* filter predicate *)
+| THop (sid d : nat)                            (* harness scheduler sid ran a schedule() (d = 0) / schedule_after(d) item *)
 | TFire                                        (* the armed root token requested stop inside a callback registration *)
 | TUaf (site : nat).   (* use of a destroyed object.  0: stop_immediately's start() goes on through its destroyed
                           operation (finding 9); 1: stop_immediately's cleanup receiver_wrapper::set_error forwards an
@@ -199,7 +227,7 @@ Record test := { te_out : bool;          (* a next-operation is alive (its stop 
                  te_own : bool }.        (* that operation's stopSource_ requested *)
 Definition te0 : test := {| te_out := false; te_ref := 0; te_own := false |}.
 
-Inductive kst := KTr | KFi (s : fist) | KSI (s : sist) | KTU (s : tust) | KTE (s : test).
+Inductive kst := KTr | KAd | KFi (s : fist) | KSI (s : sist) | KTU (s : tust) | KTE (s : test).
 
 (* ghost: the protocol state of a stream as its PARENT sees it *)
 Inductive pmode :=
@@ -437,6 +465,53 @@ Definition tr_ops (f : fn) (I : ops) : rops :=
      ro_owner := o_owner I;
      ro_cerr_ref := o_cerr_ref I;
      ro_init := BUn KTr (o_init I) |}.
+
+(* ---- adapt_stream / next_adapt_stream / cleanup_adapt_stream: the sender adaptor [an] is applied to
+   next(inner), [ac] to cleanup(inner) --------------------------------------------------------------- *)
+(* what the adapted next sender makes of the inner completion o (finally.hpp: the source operation is
+   destroyed, then the completion sender = schedule runs, then o is delivered; then.hpp as transform) *)
+Definition ad_out (a : sadapt) (o : outcome) : list tev * outcome :=
+  match a with
+  | AThen f => tr_out f o
+  | AVia sid | ATypedVia sid => ([THop sid 0], o)
+  | ADelay sid d => ([THop sid d], o)
+  | _ => ([], o)
+  end.
+(* ... and of the inner cleanup's completion: finally destroys the inner cleanup operation before it hops *)
+Definition ad_cev (a : sadapt) (ow : option nat) : list tev :=
+  match a with
+  | AVia sid | ATypedVia sid => opdel ow ++ [THop sid 0]
+  | ADelay sid d => opdel ow ++ [THop sid d]
+  | _ => []
+  end.
+(* on(sched, s) = sequence(schedule(sched), s): the hop comes before the inner operation starts *)
+Definition ad_pre (a : sadapt) : list tev := match a with AOn sid => [THop sid 0] | _ => [] end.
+Definition ad_own (a : sadapt) (ow : option nat) : option nat :=
+  match a with AVia _ | ATypedVia _ | ADelay _ _ => None | _ => ow end.
+
+Definition ad_wrap (an ac : sadapt) (ow : option nat) (pre : list tev) (r : res) : bres :=
+  match r_out r with
+  | Some (KN, o) =>
+      let (ev2, o') := ad_out an o in bmk (BUn KAd (r_st r)) (pre ++ r_ev r ++ ev2) (Some (KN, o')) (r_fired r)
+  | Some (KC, oc) => bmk (BUn KAd (r_st r)) (pre ++ r_ev r ++ ad_cev ac ow) (Some (KC, oc)) (r_fired r)
+  | None => bmk (BUn KAd (r_st r)) (pre ++ r_ev r) None (r_fired r)
+  end.
+
+Definition ad_ops (an ac : sadapt) (I : ops) : rops :=
+  {| ro_next := fun bd en => match bd with BUn KAd si => ad_wrap an ac (o_owner I) (ad_pre an) (o_next I si en) | _ => bidle bd end;
+     ro_clean := fun bd => match bd with BUn KAd si => ad_wrap an ac (o_owner I) (ad_pre ac) (o_clean I si) | _ => bidle bd end;
+     ro_stop := fun bd => match bd with BUn KAd si => ad_wrap an ac (o_owner I) [] (o_stop I si) | _ => bidle bd end;
+     ro_leaf := fun bd tg o =>
+       match bd with
+       | BUn KAd si => let (r, hit) := o_leaf I si tg o in (ad_wrap an ac (o_owner I) [] r, hit)
+       | _ => (bidle bd, false)
+       end;
+     ro_flush := fun bd => match bd with BUn KAd si => ad_wrap an ac (o_owner I) [] (o_flush I si) | _ => bidle bd end;
+     ro_arm := fun bd => match bd with BUn KAd si => BUn KAd (o_arm I si) | _ => bd end;
+     ro_budget := fun bd => match bd with BUn _ si => o_budget I si | _ => O end;
+     ro_owner := ad_own ac (o_owner I);
+     ro_cerr_ref := o_cerr_ref I;
+     ro_init := BUn KAd (o_init I) |}.
 
 (* ---- filter_stream.hpp:70-96: a rejected value destroys the inner next-op and starts a new one --- *)
 Definition fi_env (s : fist) : env := {| e_stopped := fi_stopped s; e_armed := fi_armed s |}.
@@ -852,6 +927,10 @@ Fixpoint ops_of (vr : variant) (e : stexpr) : ops :=
     | STakeUntil s tid treact => tu_ops vr tid treact (ops_of vr s)
     | SStopImm s => si_ops vr (ops_of vr s)
     | STypeErase s => te_ops vr (ops_of vr s)
+    | SNextAdapt a s => ad_ops a AId (ops_of vr s)
+    | SCleanupAdapt a s => ad_ops AId a (ops_of vr s)
+    | SAdapt1 a s => ad_ops a a (ops_of vr s)
+    | SAdapt2 an ac s => ad_ops an ac (ops_of vr s)
     end.
 
 (* ---- the consumer: reduce_stream.hpp ------------------------------------------------------------------- *)
